@@ -47,6 +47,7 @@ func runC21(c *core.Check) {
 	if x == nil || g == nil {
 		return
 	}
+	deadStateRule(c, x)
 	c.Trust("the Go 1.23.5 standard library source of go/printer as the reference sibling")
 	c.Assume("go/printer writes every comment it is given exactly once and in order (the property is established relative to that sibling)", "alpha-equivalence to the reference is a sufficient condition for agreement; a reported divergence means 'agreement can no longer be established', not 'behaviour differs'")
 
